@@ -74,7 +74,12 @@ func newEnv(seed uint64) *env {
 	return e
 }
 
+// num: a JS Number.  NaN is always handed over in its canonical form: JavaScript has one NaN, the payload of a NaN is
+// not observable by a script and not preserved by the engine, so the model makes no statement about it.
 func num(vm *goja.Runtime, f float64) jarg {
+	if f != f {
+		f = math.NaN()
+	}
 	return jarg{"N:" + hx.F64Bits(f), vm.ToValue(f)}
 }
 
@@ -444,7 +449,7 @@ func (e *env) parseArgTok(t string) (jarg, bool) {
 		if _, err := fmt.Sscanf(t[2:], "%x", &bits); err != nil {
 			return jarg{}, false
 		}
-		return jarg{t, e.vm.ToValue(math.Float64frombits(bits))}, true
+		return num(e.vm, math.Float64frombits(bits)), true
 	case strings.HasPrefix(t, "B:"):
 		n, ok := new(big.Int).SetString(t[2:], 10)
 		if !ok {
